@@ -87,6 +87,31 @@ Qed.
 Lemma get_chan_track : forall h k d i, get_chan (track h k d) i = get_chan h i.
 Proof. reflexivity. Qed.
 
+Lemma touch_meta_view : forall h ch t,
+  (forall i, get_chan (touch_meta h ch t) i = get_chan h i) /\ h_bcast (touch_meta h ch t) = h_bcast h /\
+  (forall i k, entry_at (touch_meta h ch t) i k = entry_at h i k).
+Proof. intros. unfold touch_meta. destruct (0 <? t); splits; reflexivity. Qed.
+Lemma ret_touch_view : forall cf h ch,
+  (forall i, get_chan (ret_touch cf h ch) i = get_chan h i) /\ h_bcast (ret_touch cf h ch) = h_bcast h /\
+  (forall i k, entry_at (ret_touch cf h ch) i k = entry_at h i k).
+Proof.
+  intros. unfold ret_touch. destruct (has_stream (cf_mode cf)); [|splits; reflexivity].
+  destruct (touch_meta_view (touch_stream h ch (cf_sttl cf)) ch (cf_mttl cf)) as (A & B & C).
+  splits; intros; rewrite ?A, ?B, ?C; reflexivity.
+Qed.
+Lemma unchanged_view : forall h h',
+  (forall i, get_chan h' i = get_chan h i) -> h_bcast h' = h_bcast h -> (forall i k, entry_at h' i k = entry_at h i k) ->
+  unchanged h h'.
+Proof.
+  intros h h' G B E. unfold unchanged, items_at, top_at, vis_at. splits; auto.
+  - intro i. rewrite G. auto.
+  - intros. rewrite E. reflexivity.
+Qed.
+Lemma unchanged_touch_meta : forall h ch t, unchanged h (touch_meta h ch t).
+Proof. intros. destruct (touch_meta_view h ch t) as (A & B & C). apply unchanged_view; auto. Qed.
+Lemma unchanged_ret_touch : forall cf h ch, unchanged h (ret_touch cf h ch).
+Proof. intros. destruct (ret_touch_view cf h ch) as (A & B & C). apply unchanged_view; auto. Qed.
+
 Lemma unchanged_track : forall h k d, unchanged h (track h k d).
 Proof. intros. unfold unchanged, items_at, top_at, vis_at; simpl. auto. Qed.
 
@@ -117,9 +142,10 @@ Proof.
           - intros i k'. unfold vis_at. change (entry_at (track (set_chan h1 ch c') (ch, k) (h_now h1 + cf_keyttl cf)) i k') with (entry_at (set_chan h1 ch c') i k').
             rewrite UP. destruct (ck_eqb (i, k') (ch, k)) eqn:E; auto.
             apply ck_eqb_eq in E. inversion E; subst. unfold entry_at. rewrite G1, Ecur. reflexivity. }
+        destruct (touch_meta_view (track (set_chan h1 ch c') (ch, k) (h_now h1 + cf_keyttl cf)) ch (cf_mttl cf)) as (TG & TB & TE).
         splits; auto.
-        * eapply unchanged_trans; eauto.
-        * unfold top_at. rewrite get_chan_track, get_chan_set_chan, N.eqb_refl. reflexivity.
+        * eapply unchanged_trans; [eapply unchanged_trans; eauto|apply unchanged_touch_meta].
+        * unfold top_at. rewrite !TG, get_chan_track, get_chan_set_chan, N.eqb_refl. reflexivity.
         * intros [C|C]; [congruence|]. rewrite C in RF. discriminate.
       + splits; auto.
     - splits; auto. }
@@ -133,6 +159,35 @@ Proof.
   destruct (if po_ver o =? 0 then match aget key_eqb (c_state c) k with Some e => (e_ver e, e_vep e) | None => (0, po_vep o) end
             else (po_ver o, po_vep o)) as [ver vep].
   inversion H; subst; congruence.
+Qed.
+
+Definition add_commit0 (cf : chcfg) (h1 : hub) (ch : N) (c : mchan) (k : key) (o : popts)
+           (cur : option entry) (prev : option pub) : hub * pos * option pub * reason * option pub :=
+  let mk := fun off => mkPub k off (po_data o) (po_tags o) false (po_score o) in
+  let '(c1, p) :=
+    if has_stream (cf_mode cf) then
+      let '(s', off) := stream_add (c_stream c) mk (cf_size cf) in
+      (set_stream c s', (off, s_epoch s'))
+    else (c, chan_pos c) in
+  let thepub := mk (if has_stream (cf_mode cf) || negb (is_empty k) then fst p else 0) in
+  if is_empty k then (set_chan h1 ch c1, p, prev, RNone, Some thepub) else
+  let d := if 0 <? cf_keyttl cf then h_now h1 + cf_keyttl cf else 0 in
+  let '(ver, vep) :=
+    if po_ver o =? 0 then match cur with Some e => (e_ver e, e_vep e) | None => (0, po_vep o) end
+    else (po_ver o, po_vep o) in
+  let c2 := set_state c1 (aset key_eqb (c_state c1) k (mkEntry thepub d ver vep)) in
+  let h2 := set_chan h1 ch c2 in
+  let h3 := if 0 <? cf_keyttl cf then track h2 (ch, k) d else h2 in
+  (h3, p, prev, RNone, Some thepub).
+
+Lemma add_commit_split : forall cf h1 ch c k o cur prev,
+  add_commit cf h1 ch c k o cur prev =
+  (let '(hR, p, pp, r, tp) := add_commit0 cf h1 ch c k o cur prev in (ret_touch cf hR ch, p, pp, r, tp)).
+Proof.
+  intros. unfold add_commit, add_commit0.
+  destruct (has_stream (cf_mode cf)); [destruct (stream_add _ _ _)|];
+    (destruct (is_empty k); [reflexivity|]);
+    (destruct (if po_ver o =? 0 then _ else _)); reflexivity.
 Qed.
 
 (* an accepted mapHub.add on a stream-backed channel appends exactly one entry *)
@@ -161,7 +216,31 @@ Proof.
     destruct (po_mode o); try discriminate; destruct (aget key_eqb (c_state c) k); try discriminate.
     destruct (po_refresh o && (0 <? cf_keyttl cf)); inversion KM. }
   destruct (if is_empty k then None else cas_check (snd (chan_pos c)) (po_exp o) (aget key_eqb (c_state c) k)); [discriminate|].
-  unfold add_commit in H.
+  rewrite add_commit_split in H.
+  destruct (add_commit0 cf h1 ch c k o (aget key_eqb (c_state c) k) (add_prev h ch k o)) as [[[[hR p0] pp0] r0] tp0] eqn:AC.
+  inversion H; subst. clear H.
+  destruct (ret_touch_view cf hR ch) as (VG & VB & VE).
+  assert (TR : forall i, items_at (ret_touch cf hR ch) i = items_at hR i /\ top_at (ret_touch cf hR ch) i = top_at hR i) by (intro i; unfold items_at, top_at; rewrite VG; auto).
+  assert (TV : forall i k', vis_at (ret_touch cf hR ch) i k' = vis_at hR i k') by (intros; unfold vis_at; rewrite VE; reflexivity).
+  cut (exists q, tp = Some q /\ h_bcast hR = h_bcast h /\
+    (forall i, i <> ch -> items_at hR i = items_at h i /\ top_at hR i = top_at h i) /\
+    (forall i k', (i, k') <> (ch, k) -> vis_at hR i k' = vis_at h i k') /\
+    (k <> [] -> exists ver vep, vis_at hR ch k = Some (q, ver, vep)) /\
+    p_key q = k /\ p_removed q = false /\ p_data q = po_data o /\
+    (has_stream (cf_mode cf) = true ->
+       p_off q = fst p /\ fst p = top_at h ch + 1 /\ top_at hR ch = fst p /\
+       items_at hR ch = skipn (length (items_at h ch ++ [q]) - N.to_nat (cf_size cf)) (items_at h ch ++ [q])) /\
+    (has_stream (cf_mode cf) = false -> items_at hR ch = items_at h ch /\ top_at hR ch = top_at h ch)).
+  { intros (q & A1 & A2 & A3 & A4 & A5 & A6 & A7 & A8 & A9 & A10). exists q.
+    split; [exact A1|]. split; [congruence|].
+    split; [intros i NE; destruct (TR i), (A3 i NE); split; congruence|].
+    split; [intros i k' NE; rewrite TV; auto|].
+    split; [intros KN; destruct (A5 KN) as (v1 & v2 & E); exists v1, v2; rewrite TV; exact E|].
+    split; [exact A6|]. split; [exact A7|]. split; [exact A8|].
+    split; [intros HS; destruct (A9 HS) as (B1 & B2 & B3 & B4); destruct (TR ch); splits; auto; congruence
+           | intros HS; destruct (A10 HS) as (B1 & B2); destruct (TR ch); split; congruence]. }
+  clear VG VB VE TR TV. rename hR into h'. rename AC into H.
+  unfold add_commit0 in H.
   set (mk := fun off => mkPub k off (po_data o) (po_tags o) false (po_score o)) in *.
   assert (OTH : forall c2 hx, (forall i, get_chan hx i = get_chan (set_chan h1 ch c2) i) ->
              forall i, i <> ch -> items_at hx i = items_at h i /\ top_at hx i = top_at h i).
@@ -292,8 +371,15 @@ Proof.
   { intros c2 ST. apply (upd_set_chan_adel h1 ch c c2); auto. }
   destruct (has_stream (cf_mode cf)) eqn:HS.
   - unfold stream_add in H. simpl in H. inversion H; subst; clear H. split; auto.
-    exists (mk (s_top (c_stream c) + 1)), e. splits; auto; try discriminate.
-    intros _. unfold top_at at 2, items_at at 1. rewrite !get_chan_set_chan, !N.eqb_refl. simpl.
+    match goal with |- context [ret_touch cf ?x ch] => set (hR := x) end.
+    destruct (ret_touch_view cf hR ch) as (VG & VB & VE).
+    assert (TR : forall i, items_at (ret_touch cf hR ch) i = items_at hR i /\ top_at (ret_touch cf hR ch) i = top_at hR i) by (intro i; unfold items_at, top_at; rewrite VG; auto).
+    exists (mk (s_top (c_stream c) + 1)), e.
+    split; [reflexivity|]. split; [exact ENT|]. split; [reflexivity|]. split; [reflexivity|]. split; [rewrite VB; reflexivity|].
+    split; [intros i NE; destruct (TR i) as (A & B); rewrite A, B; apply OTH; exact NE|].
+    split; [intros i k'; rewrite VE; apply UPD; reflexivity|].
+    split; [|intro; discriminate].
+    intros _. destruct (TR ch) as (A & B). rewrite A, B. unfold hR. unfold top_at at 2, items_at at 1. rewrite !get_chan_set_chan, !N.eqb_refl. simpl.
     unfold top_at, items_at. rewrite G. splits; auto.
   - inversion H; subst; clear H. split; auto.
     exists (mk 0), e. splits; auto; try discriminate.
